@@ -227,7 +227,7 @@ class SynWorld:
             s *= (self.prefix_value(p) * self.size[u]) ** e
         return s
 
-    def declare(self, a: str, rhs_terms, flip: bool, force=False, factor=None, lhs_prefixed=False) -> None:
+    def declare(self, a: str, rhs_terms, flip: bool, force=False, factor=None, lhs_prefixed=False, retype=False) -> None:
         """a.equals(mag * rhs), or (flip, single plain rhs unit only) rhs.equals(mag * a)"""
         if not self.declare_now and not force:
             self.plan.append((a, rhs_terms, flip, lhs_prefixed))
@@ -239,6 +239,12 @@ class SynWorld:
         r = self.size[a] / self.terms_size(rhs_terms)
         dec = self.spec.get("decimal_ratios")
         dec = (self.declared % 2 == 0) if dec == "mixed" else bool(dec)
+        written = self.__dict__.setdefault("_written_as", {})
+        key = (a, repr(rhs_terms), flip)
+        if retype and key in written:
+            # the same equivalence stated again, the number written in the other numeric type
+            dec = not written[key]
+        written.setdefault(key, dec)
         single_plain = len(rhs_terms) == 1 and rhs_terms[0][0] == "" and rhs_terms[0][2] == 1
         lhs, lhs_factor = self.units[a], Fraction(1)
         if lhs_prefixed or (self.spec.get("lhs_prefix") and (self.declared % 3 == 1)):
@@ -253,7 +259,8 @@ class SynWorld:
 
 def run_plan(sw: "SynWorld", i: int, factor=None) -> None:
     a, rhs_terms, flip, lp = sw.plan[i]
-    sw.declare(a, rhs_terms, flip, force=True, factor=factor, lhs_prefixed=lp)
+    retype = factor is not None and factor == 1
+    sw.declare(a, rhs_terms, flip, force=True, factor=None if retype else factor, lhs_prefixed=lp, retype=retype)
 
 
 def valid_spec(spec) -> bool:
